@@ -356,11 +356,16 @@ def http_kernel(src):
     txt = ast.unparse(chk)
     for needle in ('response.raise_for_status()', 'except requests.HTTPError',
                    'raise ApiError(str(why), reply_code=status_code)',
-                   "isinstance(json_response, dict) and 'error' in json_response",
                    "raise ApiError(json_response['error'], reply_code=status_code)",
                    'status_code = response.status_code'):
         if needle not in txt:
             raise ExtractError('_check_for_errors: %r not found' % needle)
+    if "isinstance(json_response, dict) and 'error' in json_response" in txt:
+        guard_dict = True
+    elif "'error' in json_response" in txt:
+        guard_dict = False        # a JSON body that is not an object is searched for 'error' too
+    else:
+        raise ExtractError("_check_for_errors: the test for an error object in a 2xx body is gone")
     rq = ast.unparse(f)
     for needle in ('except requests.RequestException as why', 'raise ApiConnectionError(str(why))',
                    'json_response = self._get_json_output(response)',
@@ -371,6 +376,7 @@ def http_kernel(src):
     for needle in ('content = response.json()', 'except ValueError', 'content = None', 'return content'):
         if needle not in gj:
             raise ExtractError('_get_json_output: %r not found' % needle)
+    out['guard_dict'] = guard_dict
     return out
 
 
@@ -389,6 +395,8 @@ def gen_mgmt(src, consts):
            'def pathPrefix : String := %s' % lean_str(k['prefix']),
            '/-- `HTTPClient._request`: the content-type header set on every request -/',
            'def contentType : String := %s' % lean_str(k['ctype']),
+           '/-- `_check_for_errors` looks for an "error" member only in a 2xx body that is a JSON object -/',
+           'def errorGuardRequiresObject : Bool := %s' % str(k['guard_dict']).lower(),
            '/-- one row per HTTP call site of every public Management API method -/',
            'def ops : List Endpoint := [']
     lines = []
